@@ -13,7 +13,7 @@ impl Check for C12 {
         "C12"
     }
     fn plan(&self, tier: Tier) -> Plan {
-        Plan { cases: if tier == Tier::Quick { 6000 } else { 200_000 }, max_len: 4096 }
+        Plan { cases: if tier == Tier::Quick { 30_000 } else { 600_000 }, max_len: 4096 }
     }
     fn rule(&self) -> String {
         "choice sequence -> lossless Modular codestream of depth <= 12 that declares modular_16bit_buffers = 1 *truthfully* (the reference encoder rejects any transform stage, prediction or reconstructed value outside the signed 16-bit range and regenerates the case), channel widths/heights 1..70 and around group edges, all transforms and tree shapes of C03. Oracle: decode with default (narrow, SIMD-capable) buffers and with force_wide_buffers(true): every channel sample-identical between the two, and both equal to the original. Non-trivial: RCT or squeeze present and some channel dimension > 32; distinct by FNV of the codestream.".into()
